@@ -47,13 +47,18 @@ def chunk_written(stmt):
     return None
 
 
+POS_TY = None
+
+
 def position_capture(stmt):
-    """name X for `chunk_positions.X = [Some](writer.stream_position()?)`"""
+    """name X for `<ChunkPositions value>.X = [Some](writer.stream_position()?)` (the owner is recognised by its type)"""
     s = stmt
     if s.get("k") == "assign":
         l = hirq.strip(s["l"])
-        if l.get("k") == "field" and "positions" in hirq.render(l["e"]) and "stream_position" in hirq.render(s["r"]):
-            return l["name"], ("+" in hirq.render(s["r"]))
+        if l.get("k") == "field" and "stream_position" in hirq.render(s["r"]):
+            owner_ty = POS_TY(hirq.strip(l["e"])) if POS_TY else ""
+            if "ChunkPositions" in (owner_ty or "") or "positions" in hirq.render(l["e"]):
+                return l["name"], ("+" in hirq.render(s["r"]))
     return None
 
 
@@ -66,6 +71,8 @@ def run(ctx):
     R_ofs = ctx.rule("C14.mcnk-offset-field-mapping", "each MCNK header offset field is set right before the sub-chunk the parser locates through that same field", floor=4)
     R_dual = ctx.rule("C14.binrw-no-one-sided-directive", "types deriving BinRead and BinWrite have no read-only or write-only layout directive", floor=20)
 
+    global POS_TY
+    POS_TY = lambda n: adt.ty(n.get("t")) if n is not None and n.get("t") is not None else ""
     fns = {norm(f.path): f for f in adt.fn_list if f.kind != "Closure" and f.hir}
     ser = fns.get(SER + "serialize_to_writer")
     if ser is None:
@@ -126,7 +133,7 @@ def run(ctx):
                     continue
                 r = hirq.render(fexpr)
                 want = m.group(1)
-                used = re.findall(r"positions\.(\w+)", r)
+                used = [x["name"] for x in hirq.walk(fexpr) if x.get("k") == "field" and "ChunkPositions" in (adt.ty(hirq.strip(x["e"]).get("t")) or "")]
                 if not used:
                     ctx.note_unarmed(R_mhdr, fname, "not computed from a recorded position: %s" % r[:60])
                     continue
